@@ -52,6 +52,8 @@ structure Quirks where
   exportParamTruthy : Bool := false
   /-- cirq exporter raises on `Barrier` / `NopGate` -/
   cirqNopRaises : Bool := false
+  /-- `UnboundQlassf.bind` injects the bare literal: the declared `Parameter[T]` is dropped -/
+  bindDropsType : Bool := false
   deriving Repr, DecidableEq, Inhabited
 
 def Quirks.none : Quirks := {}
@@ -78,6 +80,7 @@ def Quirks.ofList (l : List String) : Quirks :=
     qasmFormalsFromKeys := l.contains "qasmFormalsFromKeys"
     qasmParam2f := l.contains "qasmParam2f"
     exportParamTruthy := l.contains "exportParamTruthy"
-    cirqNopRaises := l.contains "cirqNopRaises" }
+    cirqNopRaises := l.contains "cirqNopRaises"
+    bindDropsType := l.contains "bindDropsType" }
 
 end QV
